@@ -7,7 +7,7 @@
 (* clauses and the run goes on; Consumed (POSTCONDITION) demands that      *)
 (* every step of every case was judged.                                    *)
 (***************************************************************************)
-EXTENDS JudgeC01, JudgeHist, JudgeC15, JudgeC20, JudgePass, Cnf, JudgeFn, JudgeBench, JudgeCodec, JudgeSynth, JudgeArith, Json, IOUtils, TLCExt
+EXTENDS JudgeC01, JudgeHist, JudgeC15, JudgeC20, Passes, Cnf, JudgeFn, JudgeBench, JudgeCodec, JudgeSynth, JudgeArith, Json, IOUtils, TLCExt
 
 (* The case file is deserialised ONCE (in Init, into TLC register 7); TLC would otherwise
    re-read the JSON file at every reference of a zero-arity definition built on IOEnv. *)
@@ -57,6 +57,7 @@ Fails(c, s) ==
     [] c.kind = "same"    -> FailSet(<< <<c.what, c.a = c.b /\ c.exc = "">> >>)
 
 Drift(c, s) == IF c.kind = "hist" THEN HistDrift(c, s)
+               ELSE IF c.kind = "pass" THEN PassDrift(c)
                ELSE IF c.kind = "cnf" THEN C05CnfDrift(c) \cup C05EncoderDrift(c) ELSE {}
 
 (* The cases are cut into NCH contiguous chains; each chain is an independent linear
